@@ -11,6 +11,7 @@ mod c17;
 mod c18;
 mod c13;
 mod c20;
+mod c06;
 mod memsrc;
 
 use common::Args;
@@ -38,6 +39,7 @@ fn main() {
 		"C07" => c07::run(&args),
 		"C13" => c13::run(&args),
 		"C20" => c20::run(&args),
+		"C06" => c06::run(&args),
 		_ => {
 			eprintln!("unknown property {prop}");
 			std::process::exit(2);
